@@ -6,12 +6,14 @@
 (* PyBindFlat enumerates every way of writing such a call with *seq and **map (Flatten).    *)
 EXTENDS PyBind, TLC
 
-Names == {"a", "b", "c", "d", "e", "g", "zz", "trigger_type"}
-Reserved == {"trigger_type"}
-POs == { <<>>, <<"a">>, <<"a", "b">> }
-PKs == { <<>>, <<"c">>, <<"c", "d">> }
-KOs == { <<>> } \cup { <<[name |-> "e", hasdef |-> h]>> : h \in BOOLEAN }
-       \cup { <<[name |-> "e", hasdef |-> h1], [name |-> "g", hasdef |-> h2]>> : h1, h2 \in BOOLEAN }
+\* one parameter of every kind is named like a reserved trigger keyword (value, context, qos); zz is an unknown
+\* name, trigger_type a reserved keyword that no signature declares
+Names == {"a", "value", "context", "d", "qos", "g", "zz", "trigger_type"}
+Reserved == {"value", "context", "qos", "trigger_type"}
+POs == { <<>>, <<"a">>, <<"a", "value">> }
+PKs == { <<>>, <<"context">>, <<"context", "d">> }
+KOs == { <<>> } \cup { <<[name |-> "qos", hasdef |-> h]>> : h \in BOOLEAN }
+       \cup { <<[name |-> "qos", hasdef |-> h1], [name |-> "g", hasdef |-> h2]>> : h1, h2 \in BOOLEAN }
 Sigs == { [po |-> po, pk |-> pk, ndef |-> nd, va |-> va, ko |-> ko, kw |-> kw] :
             po \in POs, pk \in PKs, nd \in 0..4, va \in BOOLEAN, ko \in KOs, kw \in BOOLEAN }
 ValidSig(s) == s.ndef <= Len(s.po) + Len(s.pk)
@@ -50,19 +52,23 @@ T_All == Ready => LET r == Result  py == Bind(sig, call, {}, {}) IN
   /\ IF Range(call.kws) \cap Reserved = {} THEN py = r
      ELSE py.k = "ok" => (r.k = "ok" /\ r.pos = py.pos /\ r.kwd = py.kwd /\ r.dflt = py.dflt)
 \* witnesses: members of the family that exercise each clause (evaluated at startup; a false ASSUME is an error)
-S1 == [po |-> <<"a">>, pk |-> <<"c", "d">>, ndef |-> 1, va |-> TRUE, ko |-> <<[name |-> "e", hasdef |-> TRUE]>>, kw |-> TRUE]
+S1 == [po |-> <<"a">>, pk |-> <<"context", "d">>, ndef |-> 1, va |-> TRUE, ko |-> <<[name |-> "qos", hasdef |-> TRUE]>>, kw |-> TRUE]
 S2 == [S1 EXCEPT !.kw = FALSE]
 S3 == [po |-> <<"a">>, pk |-> <<>>, ndef |-> 0, va |-> TRUE, ko |-> <<>>, kw |-> FALSE]
+S4 == [po |-> <<"a", "value">>, pk |-> <<>>, ndef |-> 1, va |-> FALSE, ko |-> <<>>, kw |-> FALSE]
 C(np, ks) == [npos |-> np, kws |-> ks]
 In(s, c) == s \in Sigs /\ ValidSig(s) /\ c \in Calls
 B0(s, c) == Bind(s, c, Reserved, {})
 ASSUME /\ In(S1, C(0, <<>>)) /\ B0(S1, C(0, <<>>)).k = "TypeError"                                   \* missing argument
-       /\ In(S1, C(1, <<"c">>)) /\ LET r == B0(S1, C(1, <<"c">>)) IN r.k = "ok" /\ r.pos = {"a"} /\ r.kwd = {"c"} /\ r.dflt = {"d", "e"}
+       /\ In(S1, C(1, <<"context">>)) /\ LET r == B0(S1, C(1, <<"context">>)) IN
+            r.k = "ok" /\ r.pos = {"a"} /\ r.kwd = {"context"} /\ r.dflt = {"d", "qos"}                \* declared reserved name binds
        /\ In(S1, C(2, <<"zz">>)) /\ B0(S1, C(2, <<"zz">>)).kwmap = {"zz"}                              \* **kw absorbs
        /\ In(S2, C(2, <<"trigger_type">>)) /\ B0(S2, C(2, <<"trigger_type">>)).dropped = {"trigger_type"}
+       /\ In(S2, C(2, <<"qos">>)) /\ LET r == B0(S2, C(2, <<"qos">>)) IN r.kwd = {"qos"} /\ r.dropped = {}   \* declared keyword-only reserved name is NOT dropped
        /\ In(S2, C(2, <<"zz">>)) /\ B0(S2, C(2, <<"zz">>)).k = "TypeError"                             \* unexpected keyword
        /\ In(S3, C(4, <<>>)) /\ B0(S3, C(4, <<>>)).va = <<2, 3, 4>>                                   \* *va collects
        /\ In(S1, C(2, <<"a">>)) /\ B0(S1, C(2, <<"a">>)).kwmap = {"a"}                                \* posonly name goes to **kw
-       /\ In(S1, C(1, <<"c", "c">>)) /\ B0(S1, C(1, <<"c", "c">>)).k = "TypeError"                     \* repeated keyword
-       /\ In(S1, C(2, <<"c">>)) /\ B0(S1, C(2, <<"c">>)).k = "TypeError"                               \* multiple values
+       /\ In(S4, C(1, <<"value">>)) /\ B0(S4, C(1, <<"value">>)).k = "TypeError"                       \* reserved posonly name by keyword: declared, not dropped
+       /\ In(S1, C(1, <<"context", "context">>)) /\ B0(S1, C(1, <<"context", "context">>)).k = "TypeError"   \* repeated keyword
+       /\ In(S1, C(2, <<"context">>)) /\ B0(S1, C(2, <<"context">>)).k = "TypeError"                   \* multiple values
 =============================================================================
